@@ -460,6 +460,8 @@ type shardResult struct {
 	Outcomes   map[string]int64 `json:"outcomes"`
 	Violations []shardViolation `json:"violations"`
 	Capped     bool             `json:"capped"`
+	Base       []string         `json:"base"` // isolated baselines and Deterministic(true) outputs of this process
+	DetEvals   int64            `json:"det_evals"`
 }
 type shardViolation struct {
 	Key, What string
@@ -494,7 +496,7 @@ func scenarios(alpha []calls.Call, tier string) (hist, conc []Scenario) {
 	}
 	if tier == "thorough" {
 		// 2 calls each on a reduced alphabet, and three threads
-		sel := []int{0, 2, 6, 9, 10, 12, 16}
+		sel := []int{0, 2, 6, 9, 10, 12, 16, 22}
 		for _, a := range sel {
 			for _, b := range sel {
 				for _, c := range sel {
@@ -526,6 +528,12 @@ func runShard(r *evid.Run, shard, nshards int) *shardResult {
 		res.Violations = append(res.Violations, shardViolation{"c18|baseline|" + msg, msg, Case{Part: "baseline"}})
 		return res
 	}
+	res.Base = append([]string(nil), base...)
+	lines, bad := calls.DetDigest(func(n int) { res.DetEvals += int64(n) })
+	if bad != "" {
+		res.Violations = append(res.Violations, shardViolation{"c18|deterministic|" + bad[:min(60, len(bad))], bad, Case{Part: "deterministic"}})
+	}
+	res.Base = append(res.Base, lines...)
 	hist, conc := scenarios(alpha, r.Tier)
 	st := &stats{outcomes: res.Outcomes}
 	preB, poolB := 2, 1
@@ -557,7 +565,7 @@ func Run(r *evid.Run) {
 		fmt.Printf("C18SHARD %s\n", b)
 		os.Exit(0)
 	}
-	r.Rule("stateless model checking of the real library built against a shim of package sync: call alphabet of 20 heterogeneous calls (successes, failures at depth, panicking user code recovered by the caller, large and 1001-deep documents, cyclic values, failing writers, re-entrant user marshalers, interning-heavy decoding, formatting). (a) histories: every call sequence up to length L on one thread x every sync.Pool answer (most recent item / New / any older item) with <=2 deviations, from cold caches and from warm caches+pools; (b) schedules: two (thorough: up to three) threads, all interleavings at the shimmed operations (Pool.Get/Put, Map.Load/Store/LoadOrStore, Once.Do entry/exit, OnceValue, atomic Load/Store) and user-callback entry/exit with <=2 preemptions x <=1 pool deviation. Oracle: each call's rendered result equals its isolated baseline (fresh caches, empty pools); values handed back are re-rendered after all later calls (aliasing); no deadlock, no panic escaping the library, termination within the step horizon; the same schedule replayed twice gives identical observations. distinct_nontrivial = executions whose schedule contains at least one preemption or non-default pool answer; states = executions explored; transitions = scheduling/pool choice points taken; traces = complete executions validated; an auxiliary free-running -race pass over the same call alphabet is reported separately and is not part of the exhaustive claim")
+	r.Rule("stateless model checking of the real library built against a shim of package sync: call alphabet of 30 heterogeneous calls (successes, failures at depth, panicking user code recovered by the caller, large and 1001-deep documents, cyclic values, failing writers, re-entrant user marshalers, interning-heavy decoding, formatting, struct option tags, caller-supplied functions, text-method map keys, call-scoped options on caller-owned coders, v1 entry points, maps without Deterministic). (c) Deterministic(true): 8 map constructions x every insertion order of their keys (all permutations up to 6 keys; identity, reversal, rotations and transpositions for 9 and 20 keys) x Marshal/MarshalWrite/MarshalEncode give identical bytes, and without the option the same members; the isolated baselines and these bytes are computed independently in each of the 12 exploration processes and must agree across processes. (a) histories: every call sequence up to length L on one thread x every sync.Pool answer (most recent item / New / any older item) with <=2 deviations, from cold caches and from warm caches+pools; (b) schedules: two (thorough: up to three) threads, all interleavings at the shimmed operations (Pool.Get/Put, Map.Load/Store/LoadOrStore, Once.Do entry/exit, OnceValue, atomic Load/Store) and user-callback entry/exit with <=2 preemptions x <=1 pool deviation. Oracle: each call's rendered result equals its isolated baseline (fresh caches, empty pools); values handed back are re-rendered after all later calls (aliasing); no deadlock, no panic escaping the library, termination within the step horizon; the same schedule replayed twice gives identical observations. distinct_nontrivial = executions whose schedule contains at least one preemption or non-default pool answer; states = executions explored; transitions = scheduling/pool choice points taken; traces = complete executions validated; an auxiliary free-running -race pass over the same call alphabet is reported separately and is not part of the exhaustive claim")
 	r.Assume("scheduling points only at synchronisation operations and user callbacks: unsynchronised data races are outside the exhaustive part (auxiliary -race pass)", "the shim implements the documented contracts of sync.Pool/Map/Once (Pool may return any item or call New)", "memory-model reorderings are not modelled")
 	nshards := 12
 	type child struct {
@@ -575,6 +583,7 @@ func Run(r *evid.Run) {
 	}
 	outcomes := map[string]int64{}
 	var maxPts int64
+	var firstBase []string
 	for i := 0; i < nshards; i++ {
 		c := <-ch
 		var res shardResult
@@ -588,6 +597,22 @@ func Run(r *evid.Run) {
 			r.Violation("c18|shard-crash", fmt.Sprintf("an exploration shard crashed or produced no result: %v: %s", c.err, trunc(string(c.out))), Case{Part: "shard"}, nil)
 			continue
 		}
+		// across processes: every process must compute the same isolated baselines and Deterministic(true) bytes
+		if firstBase == nil {
+			firstBase = res.Base
+		} else if len(res.Base) != len(firstBase) {
+			if len(res.Violations) == 0 {
+				r.Violation("c18|process|count", "two processes produced different numbers of baselines", Case{Part: "process"}, nil)
+			}
+		} else {
+			for k := range firstBase {
+				if firstBase[k] != res.Base[k] {
+					r.Violation(fmt.Sprintf("c18|process|%d", k), fmt.Sprintf("the same call gives different results in two fresh processes: %s vs %s", trunc(firstBase[k]), trunc(res.Base[k])), Case{Part: "process"}, nil)
+					break
+				}
+			}
+		}
+		r.Evaluations.Add(res.DetEvals)
 		r.States.Add(res.Executions)
 		r.Traces.Add(res.Executions)
 		r.Transitions.Add(res.Points)
